@@ -275,6 +275,8 @@ func (c Collection) characterizeAndFlatten(nonStaticTypes map[typeCode]bool) ([]
 		if err != nil {
 			return nil, nil, err
 		}
+		// the place in the list (Condense puts the two halves back together)
+		fm.chainPosition = ii
 
 		if fm.group == staticGroup {
 			for _, in := range fm.flows[inputParams] {
@@ -284,6 +286,7 @@ func (c Collection) characterizeAndFlatten(nonStaticTypes map[typeCode]bool) ([]
 					if err != nil {
 						return nil, nil, err
 					}
+					fm.chainPosition = ii
 					break
 				}
 			}
